@@ -746,39 +746,52 @@ def _watch_smoke(chk):
     _shutil.rmtree(d, ignore_errors=True)
     os.makedirs(d)
     f = os.path.join(d, "w.asm")
-    open(f, "w").write("halt\n")
+    PAD = 96
+
+    def put(text):
+        # one write() of a fixed-size buffer over the old content, no truncation: a reader sees the old text or the new one, never a mixture
+        data = text.encode() + b"\n" * (PAD - len(text))
+        fd = os.open(f, os.O_WRONLY | os.O_CREAT)
+        try:
+            os.write(fd, data)
+        finally:
+            os.close(fd)
+
+    def listen(p, quiet, limit, want_recheck):
+        """collect output until it has been quiet for `quiet` seconds (and, if asked, a complete re-check was seen) or `limit` is over"""
+        buf, t0, last = b"", _t.time(), _t.time()
+        while _t.time() - t0 < limit:
+            r, _, _ = select.select([p.stdout], [], [], 0.2)
+            if r:
+                got = p.stdout.read() or b""
+                if got:
+                    buf += got
+                    last = _t.time()
+            complete = any(b"no errors found" in seg or b"\xc3\x97" in seg or b"Error" in seg for seg in buf.split(b"Re-checking")[1:])
+            if _t.time() - last >= quiet and (complete or not want_recheck):
+                break
+        return buf
+
+    put("halt\n")
     phases = [("far", "halt\nld r0 far\n.blkw #300\nfar halt\n", False, []),
               ("ok", "halt\nadd r0 r0 #1\n", True, []),
               ("undefined", "halt\nld r0 nowhere\n", False, []),
               ("ok2", "lea r0 m\nputs\nhalt\nm .stringz \"x\"\n", True, [])]
     events = []
     for flags, extra in (([], [("stack-off", "halt\npush r1\n", False, [])]), (["-f", "stack"], [("stack-on", "halt\npush r1\n", True, [])])):
-        open(f, "w").write("halt\n")
+        put("halt\n")
         try:
             p = _sp.Popen([vlib.LACE_BIN, "watch"] + flags + [f], stdout=_sp.PIPE, stderr=_sp.STDOUT, cwd=d)
         except Exception:
             return events
         try:
-            _t.sleep(1.2)
             os.set_blocking(p.stdout.fileno(), False)
-            try:
-                p.stdout.read()
-            except Exception:
-                pass
+            listen(p, 1.2, 10, False)              # start-up output
             for name, text, valid, _ in phases + extra:
-                # rewrite the file, listen for a fixed window, judge by the last complete re-check printed in it
-                try:
-                    p.stdout.read()                # drop anything left over from the previous phase
-                except Exception:
-                    pass
-                with open(f, "w") as fh:           # an editor's save: truncate + write
-                    fh.write(text)
-                buf, t0 = b"", _t.time()
-                while _t.time() - t0 < 2.6:
-                    r, _, _ = select.select([p.stdout], [], [], 0.25)
-                    if r:
-                        buf += p.stdout.read() or b""
-                # verdict of the last COMPLETE re-check printed in the window (a re-check may have been cut off)
+                listen(p, 0.8, 10, False)          # nothing pending from the previous phase
+                put(text)
+                buf = listen(p, 0.8, 8, True)
+                # verdict of the last COMPLETE re-check printed (each re-check reads the file as it is now: the new text)
                 seen = "none"
                 for seg in buf.split(b"Re-checking")[1:]:
                     if b"no errors found" in seg:
